@@ -411,6 +411,20 @@ class Lab:
 
         Connection.writer_async = writer_async
 
+        orig_reader = Connection.reader_async
+
+        async def reader_async(conn):
+            out = await orig_reader(conn)
+            try:
+                length, msg_id = out[0], out[1]
+                if length or out[4]:
+                    lab.event('read', conn=cid(conn), mtype=int(msg_id), length=int(length), fault=bool(out[4]))
+            except Exception:  # noqa
+                pass
+            return out
+
+        Connection.reader_async = reader_async
+
         orig_close = Connection.close
 
         def close(conn):
@@ -419,7 +433,7 @@ class Lab:
             return orig_close(conn)
 
         Connection.close = close
-        self._restore = [(FSM, 'change', orig_change), (Connection, 'writer_async', orig_writer), (Connection, 'close', orig_close)]
+        self._restore = [(FSM, 'change', orig_change), (Connection, 'writer_async', orig_writer), (Connection, 'reader_async', orig_reader), (Connection, 'close', orig_close)]
 
     def build(self) -> None:
         """construct the real Reactor (not yet running)"""
